@@ -13,6 +13,7 @@ pub mod t_orswot;
 pub mod c11_aggregates;
 pub mod t_mvreg;
 pub mod t_map_orswot;
+pub mod t_map_mvreg;
 pub mod c14_identifier;
 pub mod t_list;
 pub mod c15_merkle;
